@@ -69,7 +69,7 @@ def reuse_stage(tier_, key):
         findings, states = validate_history("reuse", of)
         nseq = sum(1 for l in lines if l["t"] == "seq")
         return {"findings": split_findings(findings, lines), "spec": {k: spec[k] for k in ("seed", "maxlen")},
-                "coverage": {"configurations": len(cfgs), "call_sequences": nseq, "calls": sum(len(l["seq"]) for l in lines),
+                "coverage": {"configurations": len(cfgs), "call_sequences": nseq, "calls": sum(len(l.get("seq", l.get("got", []))) for l in lines),
                              "max_sequence_length": max(maxlens), "tlc_states": states, "exhaustive": True,
                              "alphabet": "generate(), generate_from_arbitrary(x), generate_from_arbitrary(y), reset()"},
                 "samples": [l for l in lines if l["t"] == "seq" and len(l["seq"]) >= 3][:2]}
@@ -164,7 +164,16 @@ def determinism_stage(tier_, key):
                 # long programs: the memo grows beyond 256 entries (order-dependent choices among many keys)
                 J.seed_job(corpus.cfg(P, 4500, 6000))
                 if not q: J.bytes_job(corpus.cfg(P, 4500, 6000), blen=60000)
-        spec = {"jobs": J.jobs, "threads": 16, "procs": 3 if q else 6, "groups": groups}
+        # a working directory with altered copies of the data files the repository ships
+        decoy = os.path.join(d, "decoy_cwd"); shutil.rmtree(decoy, ignore_errors=True)
+        for root, dirs, files in os.walk(os.path.join(REPO, "data")):
+            rel = os.path.relpath(root, REPO); os.makedirs(os.path.join(decoy, rel), exist_ok=True)
+            for fn in files:
+                try:
+                    lines = open(os.path.join(root, fn), errors="replace").read().split("\n")
+                    open(os.path.join(decoy, rel, fn), "w").write("\n".join(lines[3:9] if len(lines) > 9 else lines[:1]) + "\n")
+                except Exception: pass
+        spec = {"jobs": J.jobs, "threads": 16, "procs": 3 if q else 6, "groups": groups, "decoy_cwd": decoy}
         sf = os.path.join(d, "det_spec.json"); json.dump(spec, open(sf, "w"))
         of = os.path.join(d, "det.ndjson")
         run([PFV, "determinism", sf, of], timeout=3600)
@@ -678,7 +687,9 @@ def front_stage(tier_, key):
                                      got=got, lib=[lib[c["id"]]] * c["n"], gotb=list(bytes.fromhex(got[0])) if got else []))
                     shutil.rmtree(od, ignore_errors=True)
             else:   # GitHub-action wrapper
-                env = {"PATH": os.path.dirname(exe) + ":" + os.environ.get("PATH", ""), "INPUT_SEED": str(real_seed(o)),
+                # the seed is decimal text; zero-padded spellings denote the same number
+                seed_text = str(real_seed(o)) if c["id"] % 3 else "00" + str(real_seed(o))
+                env = {"PATH": os.path.dirname(exe) + ":" + os.environ.get("PATH", ""), "INPUT_SEED": seed_text,
                        "INPUT_MIN_OPCODES": str(o["min"]), "INPUT_MAX_OPCODES": str(o["max"]),
                        "INPUT_MUTATION_RATE": "%.3f" % (o["rate1000"] / 1000.0)}
                 if o["protocol"] >= 0: env["INPUT_PROTOCOL"] = str(o["protocol"])
